@@ -423,6 +423,17 @@ type FixedFinding struct {
 type KnownFile struct {
 	Open  []KnownFinding `json:"open"`
 	Fixed []FixedFinding `json:"fixed"`
+	// Undecided: genuine defects, reproduced by a demo, that no rule of the
+	// property decides (value-level or needing an analysis out of reach). They
+	// are reported with the property so that they are not forgotten; they
+	// suppress nothing.
+	Undecided []UndecidedFinding `json:"undecided"`
+}
+
+type UndecidedFinding struct {
+	Property string `json:"property"`
+	Demo     string `json:"demo"`
+	What     string `json:"what"`
 }
 
 func loadKnown(path string) (*KnownFile, error) {
